@@ -189,22 +189,24 @@ def shStyle (st : Style) : List String :=
   ["{"] ++ st.flatMap (fun d => ["D", encCps d.name, "("] ++ shCompsL d.value ++ [")", encCps d.prio]) ++ ["}"]
 
 mutual
-def shRule : Rule → List String
+def shRule (deep : Bool) : Rule → List String
   | .charset s => ["C", encCps s]
   | .comment s => ["K", encCps s]
   | .unknown s => ["U", encCps s]
   | .ns a b => ["N", encCps a, encCps b]
-  | .imp h m f th sh => ["I", encCps h, encCps m, if f then "1" else "0", encCps th, "["] ++ shRules sh ++ ["]"]
+  | .imp h m f th sh =>
+    ["I", encCps h, encCps m, if f then "1" else "0", encCps th, "["] ++ (if deep then shRules deep true sh else []) ++ ["]"]
   | .style sel st => ["S", encCps sel] ++ shStyle st
   | .fontface st => ["F"] ++ shStyle st
-  | .media m rs => ["M", encCps m, "["] ++ shRules rs ++ ["]"]
+  | .media m rs => ["M", encCps m, "["] ++ shRules deep false rs ++ ["]"]
   | .page sel st ms => ["P", encCps sel] ++ shStyle st ++ ["["] ++ ms.flatMap (fun m => encCps m.1 :: shStyle m.2) ++ ["]"]
-def shRules : List Rule → List String
+/-- `dropC`: leave out @charset rules (those of imported sheets are C08's business and not compared) -/
+def shRules (deep dropC : Bool) : List Rule → List String
   | [] => []
-  | r :: rs => shRule r ++ shRules rs
+  | r :: rs => (if dropC && isCharset r then [] else shRule deep r) ++ shRules deep dropC rs
 end
 
-def shSheet (s : Sheet) : String := " ".intercalate (["["] ++ shRules s ++ ["]"])
+def shSheet (s : Sheet) (deep : Bool := true) : String := " ".intercalate (["["] ++ shRules deep false s ++ ["]"])
 
 def shStrs (l : List Str) : String := " ".intercalate (l.map encCps)
 
@@ -231,9 +233,9 @@ def shLogged (r : Logged Sheet) : String :=
   | .ok a => "OK " ++ shSheet a.1 ++ " | " ++ shStrs a.2
   | .error e => showErr e
 
-def shRes (r : Res Sheet) : String :=
+def shRes (r : Res Sheet) (deep : Bool := true) : String :=
   (match r.val with
-   | .ok s => "OK " ++ shSheet s
+   | .ok s => "OK " ++ shSheet s deep
    | .error e => showErr e) ++ " | " ++ shFLog r.log
 
 def handle (line : String) : String :=
@@ -291,7 +293,7 @@ def handle (line : String) : String :=
         | some (sh, []) =>
           let a := parseSheet vfs h sh
           match a.val with
-          | .ok loaded => shRes (resolveImports vfs h loaded) ++ " | " ++ shFLog a.log
+          | .ok loaded => shRes (resolveImports vfs h loaded) false ++ " | " ++ shFLog a.log
           | .error e => "PARSE-" ++ showErr e
         | _ => "bad-op"
       | _, _ => "bad-op"
